@@ -478,6 +478,7 @@ func scanKalg(c *core.Ctx) []ob {
 			}
 			// walk the kernel: top-level definitions, then the loop body (window declarations + first lane)
 			var loop *ast.ForStmt
+			var loopBody []ast.Stmt
 			for _, st := range kd.Body.List {
 				switch x := st.(type) {
 				case *ast.AssignStmt:
@@ -492,10 +493,23 @@ func scanKalg(c *core.Ctx) []ob {
 				case *ast.ForStmt:
 					if loop == nil {
 						loop = x
+						loopBody = x.Body.List
+					}
+				case *ast.RangeStmt:
+					// a plain element-wise kernel: `for j, c := range p1 { p2[j] = … c … }`
+					if loopBody == nil {
+						loopBody = x.Body.List
+						if vid, ok := x.Value.(*ast.Ident); ok && vid.Name != "_" {
+							if sid, ok := unparen(x.X).(*ast.Ident); ok {
+								if sym, ok := env.slice[info.Uses[sid]]; ok {
+									env.vals[info.Defs[vid]] = pvar(sym)
+								}
+							}
+						}
 					}
 				}
 			}
-			if loop == nil {
+			if loopBody == nil {
 				out = append(out, infoOb("KALG", key, pos, "kernel is not an unrolled loop: not analysed"))
 				continue
 			}
@@ -505,7 +519,7 @@ func scanKalg(c *core.Ctx) []ob {
 			// the body of that loop, with its index variable standing for the lane, is the lane
 			var bodyStmts []ast.Stmt
 			laneVars := map[types.Object]bool{}
-			for _, st := range loop.Body.List {
+			for _, st := range loopBody {
 				switch in := st.(type) {
 				case *ast.ForStmt:
 					if init, ok := in.Init.(*ast.AssignStmt); ok && len(init.Lhs) == 1 {
@@ -593,6 +607,9 @@ func scanKalg(c *core.Ctx) []ob {
 					case *ast.IndexExpr:
 						if id, ok := unparen(x.X).(*ast.Ident); ok {
 							if sym, ok := env.win[info.Uses[id]]; ok {
+								env.out[sym] = v
+							} else if sym, ok := env.slice[info.Uses[id]]; ok {
+								// a plain loop stores straight into the operand
 								env.out[sym] = v
 							}
 						}
